@@ -14,18 +14,22 @@ import (
 
 // ConcCmd is one command of a concurrent execution.
 type ConcCmd struct {
-	Op    Op       `json:"op"`
-	Park  *Inject  `json:"park,omitempty"` // where the controller parks it (nil = runs freely)
-	Start int      `json:"start"`          // logical time the process was started
-	End   int      `json:"end"`            // logical time it had exited
-	Exit  int      `json:"exit"`
-	Out   string   `json:"stdout"`
-	Err   string   `json:"stderr"`
-	Parks int      `json:"parks_observed"`
-	Hung  bool     `json:"hung,omitempty"`
-	Calls []string `json:"calls,omitempty"`
-	reply map[string]any
-	cmd   Cmd
+	Op    Op      `json:"op"`
+	Park  *Inject `json:"park,omitempty"` // where the controller parks it (nil = runs freely)
+	Start int     `json:"start"`          // logical time the process was started
+	End   int     `json:"end"`            // logical time it had exited
+	Exit  int     `json:"exit"`
+	Out   string  `json:"stdout"`
+	Err   string  `json:"stderr"`
+	Parks int     `json:"parks_observed"`
+	Hung  bool    `json:"hung,omitempty"`
+	// Commit: logical time at which the log changed while this process was the one running
+	// (0 = never, or free-running). State is the replay of the log, so this is the instant
+	// the command took effect; the controller runs one process at a time, so it is exact.
+	Commit int      `json:"commit,omitempty"`
+	Calls  []string `json:"calls,omitempty"`
+	reply  map[string]any
+	cmd    Cmd
 }
 
 func (c ConcCmd) ok() bool       { return c.Exit == 0 && !c.Hung }
@@ -51,7 +55,12 @@ func (w *World) linearize(pre, final *Snapshot, cmds []ConcCmd) []string {
 	if len(problems) > 0 {
 		return problems
 	}
-	before := func(a, b int) bool { return cmds[a].End < cmds[b].Start }
+	before := func(a, b int) bool {
+		if cmds[a].End < cmds[b].Start {
+			return true
+		}
+		return cmds[a].Commit > 0 && cmds[b].Commit > 0 && cmds[a].Commit < cmds[b].Commit
+	}
 	best := []string{"no order tried"}
 	bestN := 1 << 30
 	var perm func(prefix []int, rest []int) bool
@@ -255,6 +264,16 @@ func (w *World) runSchedule(cmds []ConcCmd, actions []SchedAction) schedRun {
 		}
 		p.Close()
 	}
+	lastLog := string(ReadLog(w.Root))
+	noteCommit := func(i int) {
+		if now := string(ReadLog(w.Root)); now != lastLog {
+			lastLog = now
+			if cmds[i].Commit == 0 {
+				clock++
+				cmds[i].Commit = clock
+			}
+		}
+	}
 	for _, a := range actions {
 		i := a.I
 		switch a.Act {
@@ -279,6 +298,7 @@ func (w *World) runSchedule(cmds []ConcCmd, actions []SchedAction) schedRun {
 			}
 			procs[i] = p
 			exited, timedOut := p.WaitParkedOrExit(hangLimit)
+			noteCommit(i)
 			finish(i, exited, timedOut)
 		case "resume":
 			p := procs[i]
@@ -287,6 +307,7 @@ func (w *World) runSchedule(cmds []ConcCmd, actions []SchedAction) schedRun {
 			}
 			p.Resume()
 			exited, timedOut := p.WaitParkedOrExit(hangLimit)
+			noteCommit(i)
 			finish(i, exited, timedOut)
 		}
 	}
@@ -296,6 +317,7 @@ func (w *World) runSchedule(cmds []ConcCmd, actions []SchedAction) schedRun {
 			continue
 		}
 		_, _, timedOut := p.Finish(hangLimit)
+		noteCommit(i)
 		finish(i, !timedOut, timedOut)
 	}
 	sr.cmds = cmds
